@@ -67,6 +67,60 @@ package unary
 //@   loop 0 invariant i.bounds == old(i.bounds) && i.internal == old(i.internal) && i.idx == old(i.idx) && i.resolver == old(i.resolver) && wfIter(i) && autoReady(i)
 //@   loop 0 invariant domain.SpecIterWF(i.internal) && domain.SpecIterOK(i.internal)
 
+//@ # ---- seeks. From the property: a seek leaves a zero-span view inside the bounds (the point the
+//@ # next step starts from), on the domain the domain iterator found, and skips no domain that
+//@ # holds data on the near side of the target: every domain before the one SeekFirst/SeekGE stop
+//@ # on ends at or before the target, every domain after the one SeekLast/SeekLE stop on starts
+//@ # after it. The unary iterator and its domain iterator share one set of bounds (established by
+//@ # SetBounds below and by OpenIterator).
+//@ spec func seekReady(i *Iterator) bool = i.internal != nil && 0 <= i.bounds.Start && i.bounds.Start <= i.bounds.End && domain.SpecIterWF(i.internal) && domain.SpecIterBounds(i.internal) == i.bounds && (domain.SpecIterClosed(i.internal) ==> !domain.SpecIterValid(i.internal)) && telem.SpecNonneg(i.internal.TimeRange())
+//@ spec func seekDone(i *Iterator, ok bool) bool = ok == domain.SpecIterValid(i.internal) && domain.SpecIterOK(i.internal) && wfIter(i) && i.view.Start == i.view.End && i.err == nil
+//@ spec func specClamp(x telem.TimeStamp, b telem.TimeRange) telem.TimeStamp = __ite(x < b.Start, b.Start, __ite(x > b.End, b.End, x))
+//@ func (i *Iterator) SetBounds(tr telem.TimeRange)
+//@   requires i.internal != nil && tr.End >= 0
+//@   ensures  i.bounds == tr && domain.SpecIterBounds(i.internal) == tr && !domain.SpecIterValid(i.internal) && i.internal == old(i.internal)
+//@   ensures  i.view.Start == tr.End && i.view.End == tr.End && i.err == nil
+//@   modifies i, i.internal
+//@ func (i *Iterator) SeekFirst(ctx context.Context) (ok bool)
+//@   requires seekReady(i)
+//@   ensures  i.bounds == old(i.bounds) && i.internal == old(i.internal) && domain.SpecIterBounds(i.internal) == i.bounds && telem.SpecNonneg(i.internal.TimeRange())
+//@   ensures  i.closed ==> !ok && i.view == old(i.view)
+//@   ensures  !i.closed ==> seekDone(i, ok)
+//@   ensures  !i.closed && ok ==> i.view.Start == specClamp(domain.SpecIterDomainAt(i.internal, domain.SpecIterPos(i.internal)).Start, i.bounds)
+//@   ensures  !i.closed && ok ==> (forall k int :: 0 <= k && k < domain.SpecIterPos(i.internal) ==> domain.SpecIterDomainAt(i.internal, k).End <= i.bounds.Start)
+//@   modifies i, i.internal
+//@ func (i *Iterator) SeekLast(ctx context.Context) (ok bool)
+//@   requires seekReady(i) && i.bounds.End >= 1
+//@   ensures  i.bounds == old(i.bounds) && i.internal == old(i.internal) && domain.SpecIterBounds(i.internal) == i.bounds && telem.SpecNonneg(i.internal.TimeRange())
+//@   ensures  i.closed ==> !ok && i.view == old(i.view)
+//@   ensures  !i.closed ==> seekDone(i, ok)
+//@   ensures  !i.closed && ok ==> i.view.Start == specClamp(domain.SpecIterDomainAt(i.internal, domain.SpecIterPos(i.internal)).End, i.bounds)
+//@   ensures  !i.closed && ok ==> (forall k int :: domain.SpecIterPos(i.internal) < k && k < domain.SpecIterLen(i.internal) ==> i.bounds.End <= domain.SpecIterDomainAt(i.internal, k).Start)
+//@   modifies i, i.internal
+//@ func (i *Iterator) SeekLE(ctx context.Context, ts telem.TimeStamp) (ok bool)
+//@   pragma typed_heap
+//@   requires seekReady(i) && ts >= 0
+//@   ensures  i.bounds == old(i.bounds) && i.internal == old(i.internal) && domain.SpecIterBounds(i.internal) == i.bounds && telem.SpecNonneg(i.internal.TimeRange())
+//@   ensures  i.closed ==> !ok && i.view == old(i.view)
+//@   ensures  !i.closed ==> ok == domain.SpecIterValid(i.internal) && domain.SpecIterOK(i.internal) && i.view.Start == i.view.End && i.err == nil
+//@   ensures  !i.closed && i.bounds.Start <= ts && ts <= i.bounds.End ==> wfIter(i)
+//@   # the target itself when the domain found holds it, otherwise the end of that domain (clipped)
+//@   ensures  !i.closed && ok && telem.SpecOvl(domain.SpecIterDomainAt(i.internal, domain.SpecIterPos(i.internal)), telem.TimeRange{Start: ts, End: ts}) ==> i.view.Start == ts
+//@   ensures  !i.closed && ok && !telem.SpecOvl(domain.SpecIterDomainAt(i.internal, domain.SpecIterPos(i.internal)), telem.TimeRange{Start: ts, End: ts}) ==> i.view.Start == specClamp(domain.SpecIterDomainAt(i.internal, domain.SpecIterPos(i.internal)).End, i.bounds)
+//@   ensures  !i.closed && ok ==> domain.SpecIterDomainAt(i.internal, domain.SpecIterPos(i.internal)).Start <= ts && (forall k int :: domain.SpecIterPos(i.internal) < k && k < domain.SpecIterLen(i.internal) ==> ts < domain.SpecIterDomainAt(i.internal, k).Start)
+//@   modifies i, i.internal
+//@ func (i *Iterator) SeekGE(ctx context.Context, ts telem.TimeStamp) (ok bool)
+//@   pragma typed_heap
+//@   requires seekReady(i) && ts >= 0
+//@   ensures  i.bounds == old(i.bounds) && i.internal == old(i.internal) && domain.SpecIterBounds(i.internal) == i.bounds && telem.SpecNonneg(i.internal.TimeRange())
+//@   ensures  i.closed ==> !ok && i.view == old(i.view)
+//@   ensures  !i.closed ==> ok == domain.SpecIterValid(i.internal) && domain.SpecIterOK(i.internal) && i.view.Start == i.view.End && i.err == nil
+//@   ensures  !i.closed && i.bounds.Start <= ts && ts <= i.bounds.End ==> wfIter(i)
+//@   ensures  !i.closed && ok && telem.SpecOvl(domain.SpecIterDomainAt(i.internal, domain.SpecIterPos(i.internal)), telem.TimeRange{Start: ts, End: ts}) ==> i.view.Start == ts
+//@   ensures  !i.closed && ok && !telem.SpecOvl(domain.SpecIterDomainAt(i.internal, domain.SpecIterPos(i.internal)), telem.TimeRange{Start: ts, End: ts}) ==> i.view.Start == specClamp(domain.SpecIterDomainAt(i.internal, domain.SpecIterPos(i.internal)).Start, i.bounds)
+//@   ensures  !i.closed && ok ==> ts < domain.SpecIterDomainAt(i.internal, domain.SpecIterPos(i.internal)).End && (forall k int :: 0 <= k && k < domain.SpecIterPos(i.internal) ==> domain.SpecIterDomainAt(i.internal, k).End <= ts)
+//@   modifies i, i.internal
+
 //@ func (i *Iterator) Next(ctx context.Context, span telem.TimeSpan) (ok bool)
 //@   requires wfIter(i) && span >= 0 && domain.SpecIterWF(i.internal) && domain.SpecIterOK(i.internal)
 //@   ensures  i.bounds == old(i.bounds) && i.internal == old(i.internal)
